@@ -9,11 +9,14 @@ from tally.analyzer import analyze_transactions
 TICK = 64.0
 
 
-def mk(t):
+def mk(t, noise=True):
     d = {'amount': t['a'] / TICK, 'merchant': t['m'], 'category': t['c'], 'subcategory': t['s'],
          'date': datetime.strptime(t['d'], '%Y-%m-%d'), 'source': t.get('src', 'S'), 'description': t['m'].upper()}
     if t['tags'] is not None:
         d['tags'] = list(t['tags'])
+    if noise and t.get('noise'):
+        for k, v in t['noise'].items():
+            d[k] = json.loads(json.dumps(v))
     return d
 
 
@@ -25,10 +28,10 @@ def ticks(x, flag):
     return int(v)
 
 
-def run(txns):
+def run(txns, noise=True):
     flag = []
     try:
-        r = analyze_transactions([mk(t) for t in txns])
+        r = analyze_transactions([mk(t, noise) for t in txns])
     except Exception as e:  # noqa
         return {'error': f'{type(e).__name__}: {e}'}
     out = {k: ticks(r[k], flag) for k in ['income_total', 'investment_total', 'spending_total', 'credits_total',
@@ -48,6 +51,8 @@ def main():
     for case in payload['cases']:
         txns = case['txns']
         r = {'full': run(txns)}
+        if any(t.get('noise') for t in txns):
+            r['plain'] = run(txns, noise=False)
         if 'perm' in case:
             r['perm'] = run([txns[i] for i in case['perm']])
         if 'split' in case:
